@@ -105,7 +105,8 @@ def _case(draw, tier):
     if "E" in c:
         fv = rg.free_vars(c["E"])
         k = draw(st.sampled_from([1, 1, 2, 3])) if kind in ("leaf", "bleaf") and c["regime"] != "density" else \
-            (draw(st.sampled_from([1, 2])) if kind == "comp" and c["regime"] != "density" and fv else 1)
+            (draw(st.sampled_from([1, 2])) if kind == "comp" and c["regime"] != "density" and fv
+             and c.get("dkind") != "depproduct" else 1)      # (dependent products with >= 2 external rows: finding D17 of C01/C02)
         c["prows"] = {n: [[draw(specs.num(0, 1)) for _ in range(specs.PVARS[n])] for _ in range(k)] for n in sorted(fv)}
     return c
 
@@ -799,6 +800,13 @@ def extra_cases(tier, seed):
                 "warm": True})
     out.append({"kind": "comp", "dkind": "depproduct", "regime": "large", "nsmall": 1, "rng": seed * 100 + 61, "E": tdep, "prows": {},
                 "warm": False})
+    # the dependent factor wrapped in a constant shift / constant rotation
+    grow_t = {"t": "circle", "var": "x", "c": C(0.0, 0.0), "r": {"k": "affine", "var": "t", "v0": [0.3], "V1": [[1.0]]}}
+    for j, W in enumerate(({"t": "translate", "a": grow_t, "v": C(2.0, -1.0)},
+                           {"t": "rotate", "a": {"t": "par", "var": "x", "o": C(0.5, 0.0), "c1": {"k": "affine", "var": "t", "v0": [1.0, 0.0], "V1": [[2.0], [0.0]]},
+                                                 "c2": C(0.5, 1.0)}, "angle": C(0.7), "around": None, "form": "angles"})):
+        out.append({"kind": "comp", "dkind": "depproduct", "regime": "large", "nsmall": 1, "rng": seed * 100 + 68 + j,
+                    "E": {"t": "product", "a": W, "b": tdep["b"]}, "prows": {}, "warm": False})
     # polygon with boundary edges that are not edges of the Delaunay triangulation of its vertices
     slit = {"t": "poly", "var": "x", "hole": None,
             "verts": [[-1, 0], [10, 0], [10, 0.8], [5.5, 0.8], [5, 0.95], [4.5, 0.8], [0, 0.8], [0, 1], [10, 1], [10, 1.2], [5, 1.25], [-1, 1.2]]}
